@@ -379,6 +379,27 @@ def gen_entry(L):
             raise TranslateError("%s no longer compiles through RunAndCompileInputData::new + compile_modern" % fn)
 
 
+def gen_text(L):
+    src = read("src/classic/clvm/__type_compatibility__.rs")
+    m = re.search(r"pub\s+fn\s+to_formal_string\s*\(\s*&self\s*\)\s*->\s*String\s*\{\s*pybytes_repr\s*\(\s*&self\._b\s*,\s*(true|false)\s*,\s*(true|false)\s*\)\s*\}", src)
+    if not m:
+        raise TranslateError("Bytes::to_formal_string changed shape")
+    if m.group(1) != "true":
+        raise TranslateError("to_formal_string no longer asks for a double-quoted string")
+    L.append("(* __type_compatibility__.rs Bytes::to_formal_string = pybytes_repr(b, true, FULL_REPR): is the backslash escaped *)")
+    L.append("Definition FORMAL_STRING_FULL_REPR : bool := %s." % m.group(2))
+    body = fn_body(src, "pybytes_repr")
+    if not re.search(r"if\s+c\s*==\s*quote\s*\|\|\s*\(\s*c\s*==\s*'\\\\'\s*&&\s*full_repr\s*\)", body):
+        raise TranslateError("pybytes_repr: escape condition changed shape")
+    w = read("src/classic/clvm_tools/ir/writer.rs")
+    if not re.search(r"to_formal_string\s*\(\s*\)", w):
+        raise TranslateError("ir/writer.rs no longer writes quoted atoms with to_formal_string")
+    r = read("src/classic/clvm_tools/ir/reader.rs")
+    cq = fn_body(r, "consume_quoted")
+    if not re.search(r"if\s+bs\s*\{\s*bs\s*=\s*false\s*;\s*qchars\s*\.\s*push\s*\(\s*b\s*\.\s*at\s*\(\s*0\s*\)\s*\)\s*;\s*\}\s*else\s+if\s+b\s*\.\s*at\s*\(\s*0\s*\)\s*==\s*b'\\\\'\s*\{\s*bs\s*=\s*true\s*;\s*\}\s*else\s+if\s+b\s*\.\s*at\s*\(\s*0\s*\)\s*==\s*q\s*\{\s*break\s*;", cq):
+        raise TranslateError("consume_quoted: escape loop changed shape")
+
+
 def gen_consts():
     L = []
     L.append("(* GENERATED by /verif/translator/gen_consts.py from /repo's current source. Do not edit. *)")
@@ -395,5 +416,7 @@ def gen_consts():
     gen_deps(L)
     L.append("")
     gen_entry(L)
+    L.append("")
+    gen_text(L)
     L.append("")
     return "\n".join(L)
